@@ -979,13 +979,57 @@ def run(ctx):
         rep.violation(f'{text}; e.g. start {witness["start"]} size {witness["size"]} ops {witness["ops"]} '
                       f'({n} witnesses this run)', witness, sig)
     rep.exhaustive = total.drifts == 0
+    stream_probe(rep, 120 if quick else 2000)
     return rep.finish()
+
+
+def stream_probe(rep, n):
+    """JpgFresh over a stream of DIFFERENT jpg-backed frames (the way a consumer sees them: one frame object after the other, the
+    decoded picture of an earlier frame still referenced while the frame itself and its blob are gone): every frame's image is
+    the decoding of its own jpg, and no two frames of different pictures share an array."""
+    import cv2
+    kept, bad = [], 0
+    for blobkind in ('bytes', 'bytearray', 'ndarray'):
+        for i in range(n // 3):
+            h, w = SIZES[i % len(SIZES)]
+            fmt = ('BGR', 'RGB', 'GRAY')[i % 3]
+            g = np.random.default_rng(7000 + i)
+            px = g.integers(0, 256, size=(h, w) if fmt == 'GRAY' else (h, w, 3), dtype=np.uint8)
+            jpg = encode(px)
+            blob = {'bytes': lambda: bytes(jpg), 'bytearray': lambda: bytearray(jpg), 'ndarray': lambda: np.frombuffer(bytes(jpg), np.uint8)}[blobkind]()
+            f = Frame.from_jpg(blob, {}, h, w, fmt)
+            del blob
+            img = f.image
+            ref = decode(jpg, fmt)
+            rep.case(('stream', blobkind, i))
+            rep.traces += 1
+            if img.shape != ref.shape or not np.array_equal(img, ref):
+                bad += 1
+                if bad <= 3:
+                    rep.violation(f'JpgFresh: frame {i} of a stream of jpg-backed frames ({blobkind} blobs): its image is not the decoding '
+                                  f'of its own jpg ({"it is the picture of an earlier frame" if any(img is k or np.shares_memory(img, k) for k in kept) else "differs"})',
+                                  {'mode': 'stream', 'blob': blobkind, 'frame': i, 'fmt': fmt, 'size': [h, w]},
+                                  {'family': 'stream', 'kind': 'stale_image_across_frames'})
+            kept.append(img)
+            kept[:] = kept[-8:]
+            del f
+    rep.extra['stream_probe_frames'] = n - n % 3
 
 
 def replay(ctx):
     _load()
     w = json.load(open(ctx.replay))
     wit = w['witness']
+    if wit.get('mode') == 'stream':
+        rep = Report(ctx)
+        rep.distinct = _Count()
+        stream_probe(rep, 120)
+        for what, _w, _s in rep.violations:
+            print(f'VIOLATION property=C10 replay={ctx.replay}')
+            print(f'  {what}')
+        if not rep.violations:
+            print(f'replay of {ctx.replay}: the stream of jpg-backed frames shows no violation on the current tree')
+        return 1 if rep.violations else 0
     acc = Acc()
     world = run_ops(acc, wit['start']['kind'], wit['start']['fmt'], tuple(wit['size']), [tuple(o) for o in wit['ops']],
                     variant=wit.get('variant', 0), source='replay')
